@@ -337,8 +337,13 @@ class Arr:
         if len(shape) != 1:
             raise Unsupported("reshape to %d dims" % len(shape))
         tgt = raw(shape[0])
+        if not alg.is_sym(tgt) and tgt == -1:
+            return View(self, 0, self.n)  # reshape(-1): the 1-D view of a 1-D array
         if not _same_len(self.n, tgt):
-            raise ValueError("cannot reshape array of size into shape")
+            ca, cb = alg.as_concrete(self.n), alg.as_concrete(tgt)
+            if ca is not None and cb is not None:
+                raise ValueError("cannot reshape array of size %d into shape (%d,)" % (ca, cb))
+            raise Unsupported("reshape to a length that is not syntactically the array's own")
         return View(self, 0, self.n)
 
     def astype(self, t):
@@ -473,6 +478,44 @@ class Arr:
 
     def __ror__(self, o):
         return self._binop(o, "or", True)
+
+    def __xor__(self, o):
+        return self._binop(o, "xor")
+
+    def __rxor__(self, o):
+        return self._binop(o, "xor", True)
+
+    def _inplace(self, o, op):
+        """a op= o on an ndarray: the result is written into this very buffer (every view of it sees it)"""
+        r = self._binop(o, op)
+        if r is NotImplemented or not isinstance(r, Arr):
+            raise Unsupported("in-place %s with %r" % (op, type(o)))
+        if not _same_len(r.n, self.n) or r.kind != self.kind:
+            raise Unsupported("in-place %s changes the length or the element type" % op)
+        g = r.getter()
+        self.write(lambda i: True, lambda i: g(i))
+        return self
+
+    def __iand__(self, o):
+        return self._inplace(o, "and")
+
+    def __ior__(self, o):
+        return self._inplace(o, "or")
+
+    def __ixor__(self, o):
+        return self._inplace(o, "xor")
+
+    def __iadd__(self, o):
+        return self._inplace(o, "add")
+
+    def __isub__(self, o):
+        return self._inplace(o, "sub")
+
+    def __imul__(self, o):
+        return self._inplace(o, "mul")
+
+    def __itruediv__(self, o):
+        return self._inplace(o, "div")
 
     def __invert__(self):
         return ew_unop("invert", self)
@@ -1478,6 +1521,12 @@ class MArr:
     def __ror__(self, o):
         return ma_ufunc2("or", o, self)
 
+    def __xor__(self, o):
+        return ma_ufunc2("xor", self, o)
+
+    def __rxor__(self, o):
+        return ma_ufunc2("xor", o, self)
+
     def __invert__(self):
         return ma_ufunc1("invert", self)
 
@@ -1792,3 +1841,27 @@ from .ctx import guard_methods as _gm  # noqa: E402
 
 for _cls, _lab in ((Arr, "numpy.ndarray"), (MArr, "numpy.ma.MaskedArray"), (Selection, "numpy.ndarray"), (Arr2, "numpy.ndarray")):
     _gm(_cls, _lab)
+
+
+def _fill_missing_operators(cls, label):
+    """an operator the model class does not define would make Python raise TypeError in the frame of the code
+    under test (and an augmented assignment would silently fall back to rebinding): Unsupported instead"""
+    names = ["add", "sub", "mul", "truediv", "floordiv", "mod", "pow", "matmul", "and", "or", "xor", "lshift", "rshift"]
+    for nm in names:
+        for pre in ("__%s__", "__r%s__", "__i%s__"):
+            d = pre % nm
+            if d not in cls.__dict__ and not any(d in b.__dict__ for b in cls.__mro__[1:-1]):
+                def f(self, o, _d=d):
+                    raise Unsupported("%s.%s is not modelled" % (label, _d))
+
+                setattr(cls, d, f)
+    for d in ("__neg__", "__pos__", "__abs__", "__invert__"):
+        if d not in cls.__dict__ and not any(d in b.__dict__ for b in cls.__mro__[1:-1]):
+            def g(self, _d=d):
+                raise Unsupported("%s.%s is not modelled" % (label, _d))
+
+            setattr(cls, d, g)
+
+
+for _cls, _lab in ((Arr, "numpy.ndarray"), (MArr, "numpy.ma.MaskedArray"), (Selection, "numpy.ndarray"), (Arr2, "numpy.ndarray")):
+    _fill_missing_operators(_cls, _lab)
